@@ -81,9 +81,10 @@ fn spellings(name: &str) -> Vec<(&'static str, String)> {
 }
 
 fn values(tier: Tier) -> Vec<&'static str> {
+    // `null` in both tiers: a guard must not read "assigned null" as "not assigned"
     tier.pick(
-        vec!["1", "ADD(?t.n, 1)"],
-        vec!["1", "ADD(?t.n, 1)", ":p", "{version: 2}", "?t.n", "[null]"],
+        vec!["1", "null", "ADD(?t.n, 1)"],
+        vec!["1", "null", "ADD(?t.n, 1)", ":p", "{version: 2}", "?t.n", "[null]", "\"\""],
     )
 }
 
@@ -112,9 +113,17 @@ fn block_texts(block: &str, name: &str, tier: Tier) -> Vec<(String, String)> {
                 };
                 for v in values(tier) {
                     out.push((format!("{label}/single"), format!("{head}{{ {key}: {v} }}")));
+                    out.push((format!("{label}/first"), format!("{head}{{ {key}: {v}, other_field: 0 }}")));
                     out.push((format!("{label}/second"), format!("{head}{{ other_field: 0, {key}: {v} }}")));
                     out.push((format!("{label}/trailing-comma"), format!("{head}{{ {key}: {v}, }}")));
                 }
+                // written twice, and written between two writes of another field: refused as a
+                // duplicate or not, the name must not get through
+                out.push((format!("{label}/twice"), format!("{head}{{ {key}: 1, {key}: null }}")));
+                out.push((
+                    format!("{label}/between-duplicates"),
+                    format!("{head}{{ other_field: 0, {key}: 1, other_field: null }}"),
+                ));
                 // the name nested inside a value is not an assignment of that field
                 out.push((format!("{label}/nested-in-value"), format!("{head}{{ holder: {{ {key}: 1 }} }}")));
             }
@@ -127,6 +136,11 @@ fn block_texts(block: &str, name: &str, tier: Tier) -> Vec<(String, String)> {
                     format!("{label}/edge-option"),
                     format!("SET STRUCTURAL {{ (\"has_step\", :x) {{ {key}: 1 }} }}"),
                 ));
+                if label == "bare" {
+                    // the field symbol as a :parameter (nothing to compare a name with) and a null target
+                    out.push((format!("{label}/field-parameter"), format!("SET STRUCTURAL {{ (:{name}, :x) }}")));
+                    out.push((format!("{label}/null-target"), format!("SET STRUCTURAL {{ (\"{name}\", null) }}")));
+                }
             }
             "UNSET ATTRIBUTES" | "UNSET FACET" => {
                 let head = if block == "UNSET FACET" {
@@ -135,12 +149,29 @@ fn block_texts(block: &str, name: &str, tier: Tier) -> Vec<(String, String)> {
                     "UNSET ATTRIBUTES ".to_string()
                 };
                 out.push((format!("{label}/single"), format!("{head}{{ {key} }}")));
+                out.push((format!("{label}/first"), format!("{head}{{ {key}, other_field }}")));
                 out.push((format!("{label}/second"), format!("{head}{{ other_field, {key} }}")));
                 out.push((format!("{label}/trailing-comma"), format!("{head}{{ {key}, }}")));
+                out.push((format!("{label}/twice"), format!("{head}{{ {key}, {key} }}")));
+                out.push((format!("{label}/between-duplicates"), format!("{head}{{ other_field, {key}, other_field }}")));
+                if label == "bare" {
+                    // spellings an unset list has no grammar for: a :parameter, a null, a key: value pair
+                    out.push((format!("{label}/parameter"), format!("{head}{{ :{name} }}")));
+                    out.push((format!("{label}/after-null"), format!("{head}{{ null, {key} }}")));
+                    out.push((format!("{label}/with-value"), format!("{head}{{ {key}: null }}")));
+                }
             }
             "UNSET STRUCTURAL" => {
                 if key.starts_with('"') {
                     out.push((format!("{label}/field-symbol"), format!("UNSET STRUCTURAL {{ ({key}, :x) }}")));
+                    out.push((
+                        format!("{label}/field-symbol-second"),
+                        format!("UNSET STRUCTURAL {{ (\"has_step\", :y) ({key}, :x) }}"),
+                    ));
+                }
+                if label == "bare" {
+                    out.push((format!("{label}/field-parameter"), format!("UNSET STRUCTURAL {{ (:{name}, :x) }}")));
+                    out.push((format!("{label}/null-target"), format!("UNSET STRUCTURAL {{ (\"{name}\", null) }}")));
                 }
             }
             other => panic!("unknown block {other}"),
@@ -315,6 +346,22 @@ fn selection_cases() -> Vec<Case> {
         r#"MATCH {"\u006bey": :k}"#,
         r#"MATCH {id: :id, name: "Alice"}"#,
         r#"MATCH {type: "Person", key: "alice"}"#,
+        // boundary values and member order / repetition in the selector
+        r#"MATCH {name: null}"#,
+        r#"MATCH {name: ""}"#,
+        r#"MATCH {name: "Alice", key: "k"}"#,
+        r#"MATCH {name: "Alice", name: "Bob"}"#,
+        r#"MATCH {key: "k", key: "j"}"#,
+        r#"MATCH {key: "k", "key": "j"}"#,
+        r#"MATCH {key: null}"#,
+        r#"MATCH {key: null, name: "Alice"}"#,
+        r#"MATCH {id: null}"#,
+        r#"MATCH {key: ""}"#,
+        r#"MATCH {key: 0}"#,
+        r#"MATCH {key: -1.5}"#,
+        r#"MATCH {key: true}"#,
+        r#"MATCH {key: "k"} MATCH {name: "Alice"}"#,
+        r#"MATCH {name: "Alice"} MATCH {key: "k"}"#,
     ];
     for m in matches {
         for tail in ["", r#" SET FIELDS {name: "N"}"#, r#" EXPECT VERSION 0 SET ATTRIBUTES {a: 1}"#] {
@@ -1084,8 +1131,8 @@ fn main() {
     run.set("total_cases", json!(total));
     run.rule(&format!(
         "complete product: {} clause contexts (8 families, UPDATE ?t under {} target bindings, also inside MUTATE) x {} blocks x \
-         {} field names (engine-owned, Assertion/Evidence/Proposition payload, ordinary) x 7 spellings x 3 positions x {} values; \
-         BELIEF / BELIEF SLOT (7 forms) and raw predicate paths (3) x 6 positions x 11 selecting statements incl. EXPORT CAPSULE, through all four entry points; 20 MATCH shapes x 3 tails x 2; 15 bare-id creations; plans of \
+         {} field names (engine-owned, Assertion/Evidence/Proposition payload, ordinary) x 7 spellings x 4 positions x {} values (null among them) + written twice / between duplicates / :parameter and null spellings of unset lists and structural field symbols; \
+         BELIEF / BELIEF SLOT (7 forms) and raw predicate paths (3) x 6 positions x 11 selecting statements incl. EXPORT CAPSULE, through all four entry points; 35 MATCH shapes (incl. null / empty / numeric / boolean selector values, member order, repeated members and clauses) x 3 tails x 2; 15 bare-id creations; plans of \
          1..3 clauses from {} templates x {} handle-graph shapes; ASSERT with every member subset x value forms x handle x \
          SUPERSEDING; each of the 8 ASSERT members under 6 other spellings (Title, UPPER, mixed, quoted) alone and next to the \
          canonical member, before and after it, standalone and in MUTATE; every accepted tree walked; distinct = distinct accepted texts",
